@@ -92,6 +92,8 @@ def _build():
     _add('hdr[a1-as|count]', Q(items=[alias(fa(1), 'k')], distinct='count'), H3)
     # EXCEPT / aggregates / UPDATE
     _add('hdr[except a2]', Q(excpt=[1], excpt_text='a2'), H3, quick=True)
+    _add('hdr[except a2,a[2]]', Q(excpt=[1, 1], excpt_text='a2, a[2]'), H3, quick=True)
+    _add('hdr[except a1,a.name,a3|p=0]', Q(excpt=[0, 0, 2], excpt_text='a1, a.name, a3'), HN[0], quick=True)
     _add('hdr[except a1,a3|top1]', Q(excpt=[0, 2], excpt_text='a1, a3', top=1), H3)
     _add('hdr[except a3,a[1]]', Q(excpt=[0, 2], excpt_text='a3, a[1]', where=W_NEX), H3)
     _add('hdr[a1,count-as,max|group]', Q(items=[fa(1), alias(CNT, 'cnt'), agg('MAX', 'a2', lambda e: e.a(2))], group=[('a1', lambda e: e.a(1))]), H3, a=['iis', 'iis'], quick=True)
@@ -111,7 +113,8 @@ def _build():
     _add('hdrj[bstar,astar,b3]', Q(items=[BSTAR, ASTAR, fb(3)], join=jj), [None, None], HB2, ['ks', 'ks'], ['ks', 'ks'], krange=2)
     _add('hdrj[b[1],expr,b.name]', Q(items=[arrb(1), EXPR, attr('name', 'b')], join=jj), [None, None], [None, 'name'], ['ks', 'ks'], ['ks', 'ks'], quick=True, krange=2)
     _add('hdrj[bNR,b2-as,star|count]', Q(items=[BNR, alias(fb(2), 'bb'), STAR], join=jj, distinct='count'), [None, None], HB2, ['ks', 'ks'], ['ks', 'ks'], krange=2)
-    _add('hdrj[update]', Q(update=[('a2', 1, 'b2', lambda e: e.b(2))], join=jj), [None, None], HB2, ['ks', 'ks'], ['ks', 'ks'], krange=2)
+    _add('hdrj[update]', Q(update=[('a2', 1, 'b2', lambda e: e.b(2))], join=jj), [None, None], HB2, ['ks', 'ks'], ['ks', 'ks'], quick=True, krange=2)
+    _add('hdrj[update-left]', Q(update=[('a1', 0, 'b1', lambda e: e.b(1))], join=join('LEFT JOIN'), where=('b2 is None', lambda e: e.b(2) is None)), [None, None], [None, None, None], ['ks', 'ks'], ['kss'], quick=True, krange=2)
     # no input header: an output header exists only when aliases are used
     _add('nohdr[a1,a2]', Q(items=[fa(1), fa(2)]), None, quick=True)
     _add('nohdr[star]', Q(items=[STAR, NR]), None)
